@@ -215,6 +215,24 @@ class WriterLayout:
 # ---------------------------------------------------------------------------------------------
 # reader side
 
+NO_DATA_T = ('f64', '-1e39')
+
+
+def unwrap_normaliser(v):
+    """(value read, normaliser) — normaliser is False (raw), 'f64::max' (std, value first or second) or
+    ('fn', def path, position of the value read) for a local two-argument function applied with NO_DATA"""
+    if v[0] == 'f64max':
+        if v[2] == NO_DATA_T:
+            return v[1], 'f64::max'
+        if v[1] == NO_DATA_T:
+            return v[2], 'f64::max'
+    if v[0] == 'f64min' and NO_DATA_T in (v[1], v[2]):
+        return (v[1] if v[2] == NO_DATA_T else v[2]), 'f64::min'
+    if v[0] == 'app' and len(v[2]) == 2 and NO_DATA_T in v[2]:
+        pos = 0 if v[2][1] == NO_DATA_T else 1
+        return v[2][pos], ('fn', v[1], pos)
+    return v, False
+
 class ReaderLayout:
     def __init__(self, path):
         self.p = path
@@ -240,14 +258,7 @@ class ReaderLayout:
                     self.bind.setdefault(e[2], 'pushed')
             elif e[0] == 'store':
                 fs = fields_of_path(e[1][1])
-                v = e[2]
-                norm = False
-                if v[0] == 'f64max' and v[2] == ('f64', '-1e39'):
-                    v = v[1]
-                    norm = True
-                elif v[0] == 'f64max' and v[1] == ('f64', '-1e39'):
-                    v = v[2]
-                    norm = True
+                v, norm = unwrap_normaliser(e[2])
                 if v[0] == 'ret' and fs:
                     root = e[1][0]
                     if root[0] == 'T' and any(isinstance(x, tuple) and x and x[0] in ('elem', 'elemref') for x in absint.subterms(root[1])):
@@ -255,6 +266,7 @@ class ReaderLayout:
                         self.normalised[v] = norm
                     elif box_binding(fs):
                         self.bind[v] = box_binding(fs)
+                        self.normalised[v] = norm
 
     def scan_value(self, v, fs):
         if not isinstance(v, tuple) or not v:
@@ -269,11 +281,11 @@ class ReaderLayout:
                 elif len(fs) == 1 and fs[0] in ('x', 'y', 'z', 'm'):
                     self.bind[v] = fs[0]
             return
-        if v[0] == 'f64max':
-            inner = v[1] if v[2] == ('f64', '-1e39') else v[2]
+        inner, norm = unwrap_normaliser(v)
+        if norm:
             if inner[0] == 'ret':
                 self.scan_value(inner, fs)
-                self.normalised[inner] = True
+                self.normalised[inner] = norm
             return
         if is_agg(v):
             for k, x in v[4]:
